@@ -22,6 +22,8 @@ CORRUPTIONS = [
     "ref_half_open_start", "ref_half_open_end", "ref_end_over", "ref_start_gt_end", "ref_start_over",
     # the number of frames itself changes (features re-extracted): alone, or together with the alignment
     "feat_longer", "feat_shorter", "reextract_longer", "reextract_shorter",
+    # two defects in one token: a boundary missing AND the other one beyond the last frame
+    "ref_half_open_end_over", "ref_half_open_start_over",
 ]
 
 
@@ -401,6 +403,10 @@ def corrupt(model, utt, kind, arg, res):
             t[i, 1], t[i, 2] = min(T, 3) + 1, min(T, 3)
         elif kind == "ref_start_over":
             t[i, 1], t[i, 2] = T + 1, T + 1 + arg
+        elif kind == "ref_half_open_end_over":
+            t[i, 1], t[i, 2] = -1, T + arg
+        elif kind == "ref_half_open_start_over":
+            t[i, 1], t[i, 2] = T + arg, -1
         P["ref"][fn] = t
     else:
         return []
